@@ -6,13 +6,46 @@ from .common import gen_faults
 
 PROP = "C17"
 JUDGE = ("C17.",)
-PROGRAMS = ["calltree"]
+PROGRAMS = ["calltree", "genctx"]
 RUNS = {"quick": 3000, "thorough": 150000}
 
 KINDS = ["accum", "map", "count", "sum", "min", "max", "last", "first"]
 
 
+def gen_generator_history(rng, tier):
+    """A probe ends while an instrumented generator it saw is suspended; a stage attached to
+    it afterwards must stay silent whatever the generator does later (another probe keeps
+    the functions instrumented)."""
+    from .common import gen_tape
+
+    def sel(chain, focus):
+        return {"levels": [{"fn": f, "caps": [], "sibs": []} for f in chain], "focus": {"var": focus, "as": focus}}
+
+    pc, pf = rng.choice([(["g"], "a"), (["gen", "g"], "a"), (["gen"], "x")])
+    tape = lambda: gen_tape(rng, 6, hi=12, odd=0.6)
+    ops = [{"op": "mk", "id": "p0", "inv": "C17.stream", "sels": [sel(pc, pf)]},
+           {"op": "mk", "id": "p1", "inv": "C17.stream", "sels": [sel(["g"], "a")]},
+           {"op": "stage", "id": "p0", "kind": rng.choice(KINDS), "cap": pf},
+           {"op": "enter", "id": "p0"},
+           {"op": "gen_new", "gen": "g0", "fn": "gen", "nargs": 1},
+           {"op": "gen_next", "gen": "g0", "tape": tape(), "faults": {}},
+           {"op": "exit", "id": "p0", "exc": rng.random() < 0.3},
+           {"op": "stage", "id": "p0", "kind": rng.choice(["accum", "map", "sum", "last"]), "cap": pf},
+           {"op": "enter", "id": "p1"}]
+    for _ in range(rng.randint(1, 3)):
+        ops.append(rng.choice([{"op": "gen_next", "gen": "g0", "tape": tape(), "faults": {}},
+                               {"op": "call", "fn": "g", "nargs": 1, "tape": [], "faults": {}}]))
+    ops += [{"op": rng.choice(["gen_close", "gen_next", "gen_drop"]), "gen": "g0", "tape": [1, 0], "faults": {}},
+            {"op": "call", "fn": "g", "nargs": 1, "tape": [], "faults": {}},
+            {"op": "call", "fn": "g", "nargs": 1, "tape": [], "faults": {}},
+            {"op": "exit", "id": "p1"},
+            {"op": "call", "fn": "g", "nargs": 1, "tape": [], "faults": {}}]
+    return {"prog": "genctx", "ops": ops, "relax_inflight": True}
+
+
 def gen(rng, tier, quarantine=()):
+    if "no-generators" not in quarantine and rng.random() < 0.1:
+        return gen_generator_history(rng, tier)
     fns = rng.sample(FNS, rng.choice([1, 2]))
     nprobes = rng.choice([1, 2, 2, 3])
     ops = []
